@@ -245,9 +245,15 @@ import (
 //@                         g.l.root.next == old(g.l.root.next) && g.l.root.prev == old(g.l.root.prev)
 //@   ensures  nodes:    forall m *Node[model.File] :: toplevel(m) ==> m.next == old(m.next) && m.prev == old(m.prev)
 
+// tinPool: the store is currently held by the pool (a store is released once; two Acquire calls never
+// return the same store while it is in use)
+//@ ghost field (Transaction).tinPool bool
 //@ func (*Pool[Transaction]).Acquire
 //@   trusted
 //@   requires nn: p != nil
+//@   modifies Transaction.tinPool
+//@   ensures  notpooled: !result.tinPool && (old(result.tinPool) || fresh(result))
+//@   ensures  otherpool: forall t *Transaction :: t != result ==> t.tinPool == old(t.tinPool)
 //@   ensures  r:  result != nil && toplevel(result) && !result.WithoutSearch && result.gid == "" && forall k string :: !has(result.store, k)
 //@   ensures  own: result.store != nil ==> mapref(result.store).mowner == result
 
@@ -257,7 +263,9 @@ import (
 //@   requires nn:     p != nil
 //@   requires one:    len(els) == 1 && els[0] != nil && txInv(els[0])
 //@   requires empty:  forall k string :: has(els[0].store, k) ==> len(els[0].store[k].l.elems) == 0
-//@   modifies file.arr, file.withoutSearch, file.gtx, Node[model.File].next, Node[model.File].prev, map[string]*file, mem[*file], Transaction.gid
+//@   requires notpooled: !els[0].tinPool
+//@   modifies file.arr, file.withoutSearch, file.gtx, Node[model.File].next, Node[model.File].prev, map[string]*file, mem[*file], Transaction.gid, Transaction.tinPool
+//@   ensures  pooled:  els[0].tinPool && forall t *Transaction :: t != els[0] ==> t.tinPool == old(t.tinPool)
 //@   ghost forall g *file :: g.gtx := ite(g.gtx == els[0], nil, g.gtx)
 //@   ghost els[0].gid := ""
 //@   ensures  cleared: forall k string :: !has(els[0].store, k)
